@@ -4,7 +4,8 @@
 (* (in the reading the code performs today) over the recorded events to know, at every event, which text the       *)
 (* server has analysed, and evaluates Total, WellFormed and Fresh on what was observed.                             *)
 (*                                                                                                                  *)
-(* r  = [id, main, disk: <<[f, t]>>, texts: <<[t, lt, imp]>> (imp: files the text imports), events: <<e>>, shownH: <<[f, d]>>, shownF: <<[f, d]>>,            *)
+(* r  = [id, cfg (the configuration file), disk: <<[f, t]>> (t = "-": no such file), texts: <<[t, lt, imp, entry]>>  *)
+(*       (imp: files the text imports; entry: build entry a configuration text names), events: <<e>>, shownH: <<[f, d]>>, shownF: <<[f, d]>>,            *)
 (*       lastRound: <<f>>]                                                                                           *)
 (* e  = [k \in {"open","change","close","req"}, f, t, kind, line, ch, status \in {"ok","error","dead","timeout"},   *)
 (*       panic, nonnull, ranges: <<[f, r]>>, hasToks, toks, ans, hasFresh, fresh, freshStatus, pubs: <<[f, r]>>]     *)
@@ -19,13 +20,19 @@ V(id, verdict, dev, why) == [id |-> id, verdict |-> verdict, dev |-> dev, why |-
 DiskOf(r) == [f \in {r.disk[i].f : i \in 1..Len(r.disk)} |-> r.disk[CHOOSE i \in 1..Len(r.disk) : r.disk[i].f = f].t]
 LtOf(r, t) == r.texts[CHOOSE i \in 1..Len(r.texts) : r.texts[i].t = t].lt
 ImpOf(r, t) == Range(r.texts[CHOOSE i \in 1..Len(r.texts) : r.texts[i].t = t].imp)
-InTree(r, an, f) == f = r.main \/ f \in ImpOf(r, an[r.main])       \* files of the analysed parse tree (one import level)
+EntryOfText(r, t) == r.texts[CHOOSE i \in 1..Len(r.texts) : r.texts[i].t = t].entry
+(* files of the analysed parse tree (one import level); none when no analysis exists *)
+InTree(r, s, f) == s.has /\ s.main \in DOMAIN s.an /\ (f = s.main \/ f \in ImpOf(r, s.an[s.main]))
+OkNow(r, disk, b) == Resolvable(disk, b, r.cfg, LAMBDA t : EntryOfText(r, t))
+MainNow(r, disk, b) == EntryFile(disk, b, r.cfg, LAMBDA t : EntryOfText(r, t))
 Coded == AllDeviations          \* the fold uses the transitions as coded; the verdicts below are the ideal property
 NoDiag(g) == "none"
 
 Step1(r, disk, s, e) ==
-  CASE e.k \in {"open", "change"} -> Insert(s, disk, e.f, e.t, {}, NoDiag, Coded)
-    [] e.k = "close" -> Close(s, disk, e.f, {}, NoDiag, Coded)
+  CASE e.k \in {"open", "change"} -> LET b == [s.buf EXCEPT ![e.f] = e.t] IN
+                                      Insert(s, disk, e.f, e.t, OkNow(r, disk, b), MainNow(r, disk, b), {}, NoDiag, Coded)
+    [] e.k = "close" -> LET b == [s.buf EXCEPT ![e.f] = NoText] IN
+                        Close(s, disk, e.f, OkNow(r, disk, b), MainNow(r, disk, b), {}, NoDiag, Coded)
     [] e.k = "req" -> IF e.status \in {"dead", "timeout"} THEN Die(s, e.panic)
                       ELSE IF e.kind = "rename" /\ e.nonnull /\ ~e.hasFresh THEN Renamed(s, Coded) ELSE s
     [] OTHER -> s
@@ -36,7 +43,7 @@ BadRanges(r, disk, buf, rs) ==
 
 JudgeReq(r, disk, s, e) ==
   LET known == e.f \in DOMAIN disk
-      pred  == IF known /\ InTree(r, s.an, e.f) THEN DeathOf(e.kind, LtOf(r, s.an[e.f]), e.line, e.ch) ELSE ""
+      pred  == IF known /\ InTree(r, s, e.f) THEN DeathOf(e.kind, LtOf(r, s.an[e.f]), e.line, e.ch) ELSE ""
       where == e.kind \o " at " \o ToString(e.line) \o ":" \o ToString(e.ch) \o " in " \o e.f
       total == IF e.status \in {"ok", "error"}
                  THEN IF pred # "" /\ e.nonnull THEN <<V(r.id, "drift", pred, "model predicts a crash, the server answered: " \o where)>> ELSE <<>>
@@ -78,12 +85,13 @@ JudgeShown(r, s) ==
            diff == {g \in DOMAIN h : h[g] # f[g]} IN
        IF diff = {} THEN <<>>
        ELSE IF CloseWitness(s) THEN <<V(r.id, "deviation", "CloseDoesNotReanalyse", "diagnostics shown after didClose differ from a fresh server")>>
-       ELSE IF \A g \in diff : ~InTree(r, s.an, g) /\ f[g] = "[]"        \* the file is not part of the analysed tree any more
+       ELSE IF \A g \in diff : ~InTree(r, s, g) /\ f[g] = "[]"        \* the file is not part of the analysed tree any more
          THEN <<V(r.id, "deviation", "StaleDiagnosticsForDroppedFile", "diagnostics of a file that left the project are never cleared")>>
        ELSE <<V(r.id, "violation", "", "Fresh: diagnostics last published differ from a fresh server given the final buffers")>>
 
 Judge(r) == LET disk == DiskOf(r)
-                res == Run(r, disk, 1, S0(disk), <<>>) IN
+                b0 == [f \in DOMAIN disk |-> NoText]
+                res == Run(r, disk, 1, S0(disk, OkNow(r, disk, b0), MainNow(r, disk, b0)), <<>>) IN
             res.acc \o JudgeShown(r, res.s)
 
 Init == l = 1 /\ bad = <<>>
